@@ -38,14 +38,15 @@ TagNames == <<"a", "b", "c">>
 TagSet   == {"a", "b", "c"}
 TagIdx   == [a |-> 1, b |-> 2, c |-> 3]
 
-KindNames == <<"num", "str", "boolT", "boolF", "uri", "ref", "date", "time", "dt", "qty">>
+KindNames == <<"num", "str", "boolT", "boolF", "uri", "ref", "date", "time", "dt", "qty", "inf">>
 Kinds     == {KindNames[i] : i \in 1..Len(KindNames)}
 KIdx == [num |-> 1, str |-> 2, boolT |-> 3, boolF |-> 4, uri |-> 5, ref |-> 6, date |-> 7,
-         time |-> 8, dt |-> 9, qty |-> 10]
+         time |-> 8, dt |-> 9, qty |-> 10, inf |-> 11]
 \* kinds that Python compares with each other although Haystack keeps them apart
 Fam == [num |-> "numeric", qty |-> "numeric", boolT |-> "numeric", boolF |-> "numeric",
-        str |-> "text", uri |-> "text", date |-> "day", dt |-> "day", time |-> "time", ref |-> "ref"]
-Ordered == {"num", "str", "date", "time", "dt", "qty"}
+        inf |-> "numeric", str |-> "text", uri |-> "text", date |-> "day", dt |-> "day",
+        time |-> "time", ref |-> "ref"]
+Ordered == {"num", "str", "date", "time", "dt", "qty", "inf"}
 
 Eq == 2
 Below == 3
@@ -55,8 +56,8 @@ Marker == <<0, 1>>
 Val(k, r) == <<KIdx[k], r>>
 RefTo(n)  == <<KIdx.ref, 100 + n>>
 Dangling  == RefTo(99)                  \* no row ever has id 99
-\* relations a value of kind k can have to the literal (there is nothing after `true')
-Avail(k) == IF k = "boolT" THEN {Eq, Below} ELSE IF k = "boolF" THEN {Eq, Above} ELSE {Eq, Below, Above}
+\* relations a value of kind k can have to the literal (there is nothing after `true' or INF)
+Avail(k) == IF k \in {"boolT", "inf"} THEN {Eq, Below} ELSE IF k = "boolF" THEN {Eq, Above} ELSE {Eq, Below, Above}
 \* a value of a kind that neither Haystack nor Python compares with kind k
 OtherOf(k) == IF Fam[k] = "text" THEN Val("num", Eq) ELSE Val("str", Eq)
 
@@ -107,7 +108,8 @@ FiltersUpTo(n, At) == UNION {FiltersN(j, At) : j \in 1..n}
 
 \* ------------------------------------------------------------------ rendering
 LitTok == [num |-> "#num", str |-> "#str", boolT |-> "#boolT", boolF |-> "#boolF", uri |-> "#uri",
-           ref |-> "#ref", date |-> "#date", time |-> "#time", dt |-> "#dt", qty |-> "#qty"]
+           ref |-> "#ref", date |-> "#date", time |-> "#time", dt |-> "#dt", qty |-> "#qty",
+           inf |-> "#inf"]
 LitToks == {LitTok[k] : k \in Kinds}
 KindOfLit(tok) == CHOOSE k \in Kinds : LitTok[k] = tok
 Blank == {" ", "  "}
@@ -152,7 +154,8 @@ LitSpell == [num   |-> <<53>>,                                         \* 5
              date  |-> <<50, 48, 50, 48, 45, 48, 49, 45, 49, 53>>,     \* 2020-01-15
              time  |-> <<49, 50, 58, 51, 48, 58, 48, 48>>,             \* 12:30:00
              dt    |-> <<50, 48, 50, 48, 45, 48, 49, 45, 49, 53, 84, 49, 50, 58, 51, 48, 58, 48, 48, 90>>,
-             qty   |-> <<53, 107, 87>>]                                \* 5kW
+             qty   |-> <<53, 107, 87>>,                                \* 5kW
+             inf   |-> <<73, 78, 70>>]                                 \* INF (positive infinity)
 Spell(tok) ==
     CASE tok = "("   -> <<40>>        [] tok = ")"   -> <<41>>
       [] tok = " "   -> <<32>>        [] tok = "  "  -> <<32, 32>>
